@@ -452,6 +452,53 @@ def updOneE (s : SimState) (g : Game) (name : Name) : Except Err Game :=
 
 def updateAgentsE (s : SimState) (g : Game) : Except Err Game := foldE (updOneE s) g g.order
 
+/-! ### `update_agents` as the program its source is (Gen/Reward.lean `updateAgentsProgram`, translated on every run) -/
+
+/-- what the body of `update_agents`' loop does to the agent it has looked up, statement by statement -/
+inductive AOp
+  /-- `agent.update_reward(state=state)`: `reward_function.update(state, self.history[-1])` -/
+  | updateReward
+  /-- `agent.save_reward_to_history()`: `self.history[-1].reward = current_reward` -/
+  | saveRewardToHistory
+  /-- `agent.update_observation(state=state)` (no effect on rewards) -/
+  | updateObservation
+  /-- `agent.reward_function.total_reward += agent.reward_function.current_reward` -/
+  | addCurrentToTotal
+deriving DecidableEq, Repr
+
+/-- run the statements of the loop body on the agent, in order; `(true, op)` = `op` stands under `if self.step_counter > 0:` -/
+def runOps (s : SimState) (g : Game) (positive : Bool) : List (Bool × AOp) → Agent → Except Err Agent
+  | [], a => .ok a
+  | (guarded, op) :: rest, a =>
+    if guarded && !positive then runOps s g positive rest a
+    else
+      match op with
+      | .updateReward =>
+        match a.hist with
+        | [] => .error .indexError
+        | (it, _) :: _ =>
+          if (sharedNames a.comps).all (fun v => v ∈ agentKeys g.agents) then
+            match updateCompsE s it (curOf g.agents) 0 a.comps with
+            | .error e => .error e
+            | .ok r => runOps s g positive rest { a with comps := r.2, current := r.1 }
+          else .error .keyError
+      | .saveRewardToHistory =>
+        match a.hist with
+        | [] => .error .indexError
+        | (it, _) :: older => runOps s g positive rest { a with hist := (it, some a.current) :: older }
+      | .updateObservation => runOps s g positive rest a
+      | .addCurrentToTotal => runOps s g positive rest { a with total := a.total + a.current }
+
+/-- one iteration of the loop of a translated `update_agents`: `agent = self.agents[agent_name]`, then the statements -/
+def updOneProg (prog : List (Bool × AOp)) (s : SimState) (g : Game) (name : Name) : Except Err Game :=
+  match g.agents.lookup name with
+  | none => .error .keyError
+  | some a =>
+    match runOps s g (decide (g.stepCounter > 0)) prog a with
+    | .error e => .error e
+    | .ok a' => .ok { g with agents := setAgent name a' g.agents }
+
+
 /-- one `PrimaiteGame.step` / `PrimaiteGymEnv.step`, reward-relevant part, exceptions included -/
 def gameStepE (g : Game) (items : Name → Item) (s : SimState) : Except Err Game :=
   updateAgentsE s (advance (act items g))
